@@ -61,7 +61,7 @@ def random_graph(rng, n_nodes=None, n_edges=None, dag=False):
 def build(rng, tier):
   """Returns dict(prog, comp, depth, template, monotone_set, distinct)."""
   t = rng.choice(['counter', 'counter2', 'tc_linear', 'tc_nonlinear', 'tc_multiset', 'shortest', 'winmove', 'mutual_cut', 'mutual_flat',
-                  'mutual_cut3', 'tc_linear', 'mutual_flat'])
+                  'mutual_cut3', 'tc_linear', 'mutual_flat', 'counter_distinct', 'counter_distinct'])
   rules = []
   preds = {}
   order = []
@@ -83,17 +83,20 @@ def build(rng, tier):
   edges = random_graph(rng)
   if rng.random() < 0.3:
     edges = edges + [rng.choice(edges)]      # duplicate edge
-  if t in ('counter', 'counter2'):
+  if t in ('counter', 'counter2', 'counter_distinct'):
+    # counter_distinct: a set-valued counter (several distinct rules -> the parser's multi-body aggregation helper is
+    # part of the component); it never converges within the depth, so every application is visible in the result
+    dd = t == 'counter_distinct'
     k = rng.choice([1, 1, 1, 2])
-    lim = rng.choice([None, None, 5, 12, 30])
-    rules.append(rule('Nat', [(None, N(rng.choice([0, 0, 1])))]))
-    if t == 'counter2':
-      rules.append(rule('Nat', [(None, N(rng.choice([0, 3])))]))
+    lim = rng.choice([None, None, 5, 12, 30]) if not dd else rng.choice([None, None, 40, 200])
+    rules.append(rule('Nat', [(None, N(rng.choice([0, 0, 1])))], distinct=dd))
+    if t == 'counter2' or (dd and rng.random() < 0.4):
+      rules.append(rule('Nat', [(None, N(rng.choice([0, 3])))], distinct=dd))
     body = call('Nat', V('n'))
     if lim is not None:
       body = conj(body, ('cmp', '<', V('n'), N(lim)))
-    rules.append(rule('Nat', [(None, ('bin', '+', V('n'), N(k)))], body))
-    derived('Nat', 1)
+    rules.append(rule('Nat', [(None, ('bin', '+', V('n'), N(k)))], body, distinct=dd))
+    derived('Nat', 1, agg=dd)
     comp = ['Nat']
     monotone_set = False      # a multiset program: exact claim only
     main = 'Nat'
